@@ -21,7 +21,7 @@ THEOREMS = [L + t for t in (
     "serve_joins_all_goroutines", "f37_stop_as_is_stuck", "f47_once_deadlock_as_is_stuck", "f48_auth_send_as_is_stuck", "f49_as_is_poll_without_queue",
     "lock_feedback_empty", "lock_order_acyclic")]
 COMPS = ["broker"]          # Go side; the Lean side is oracle_lifecycle (LifecycleStream.model)
-NEEDS_FACTS = True
+NEEDS_FACTS = ["Locks", "Serve"]
 QT = 20000       # only a wedged broker (or a hopelessly overloaded machine) ever waits this long
 
 # ---------------------------------------------------------------- generator
@@ -471,12 +471,12 @@ def streams(tier):
     return res
 
 def _lock_cycle_report():
-    """the edges the extractor marked as closing a cycle, with their sites (from Generated/Facts.lean)"""
-    p = os.path.join(core.LEAN, "GmqttVerif", "Generated", "Facts.lean")
+    """the edges the extractor marked as closing a cycle, with their sites (from Generated/Locks.lean)"""
+    p = os.path.join(core.LEAN, "GmqttVerif", "Generated", "Locks.lean")
     try:
         s = open(p).read()
     except OSError:
-        return "Generated/Facts.lean missing"
+        return "Generated/Locks.lean missing"
     m = re.search(r"edges that close a cycle.*?:\n(.*?)-/\ndef lockFeedback", s, re.S)
     fb = [l.strip() for l in (m.group(1).split("\n") if m else []) if l.strip()]
     sites = []
@@ -490,7 +490,7 @@ def run(r):
     # facts (lock order) are re-extracted from the tree on every run
     rc, out = core.build_go(r.log, ["extract"])
     if rc == 0:
-        rc, out = core.extract_facts(r.log)
+        rc, out = core.extract_facts(r.log, NEEDS_FACTS)
     if rc != 0:
         r.violation("extract", "# fact extractor failed on the tree: the regenerated tie no longer checks\n" + out[-3000:], False,
                     "extractor failed")
@@ -500,7 +500,7 @@ def run(r):
         cyc = _lock_cycle_report()
         if rc == 0 and cyc:
             r.violation("lockorder", "# lock_order_acyclic does not hold for this tree: the extracted acquired-while-holding relation has a "
-                        "cycle.\n# edges that close a cycle (Generated/Facts.lean lockFeedback), with one site each:\n" +
+                        "cycle.\n# edges that close a cycle (Generated/Locks.lean lockFeedback), with one site each:\n" +
                         "\n".join("#   " + l for l in cyc.split("\n")) + "\n", False, "lock-order cycle")
     comps = ["broker"]
     rc, out = core.build_go(r.log, comps)
